@@ -43,6 +43,7 @@ type RunConfig struct {
 	Maintenance   bool    `json:"maintenance,omitempty"`
 	ChattyPair    bool    `json:"chatty_pair,omitempty"`
 	PStoreErr     float64 `json:"p_store_err,omitempty"`
+	PFrameErr     float64 `json:"p_frame_err,omitempty"` // transient error of the database write of a frame (the cache keeps the frame; the round is retried by the next pass)
 	Wire          bool    `json:"wire,omitempty"`
 	StarveOnly    bool    `json:"starve_only,omitempty"`
 	StaleForger   bool    `json:"stale_forger,omitempty"`
